@@ -65,6 +65,9 @@ def make_symsimu(mesh, dof_n=1):
         def Get_dof_n(self, problemType=None):
             return self._dof_n
 
+        def Get_x0(self, problemType=None):
+            return np.zeros(self.mesh.Nn * self._dof_n)
+
         def Get_unknowns(self, problemType=None):
             return ["t"] if self._dof_n == 1 else ["x", "y", "z", "rx", "ry", "rz"][: self._dof_n]
 
